@@ -91,6 +91,19 @@ def oracle(ck, tier, deep):
             if np.abs(b - src).max() < 0.04 and np.abs(a - b).max() > 1e-11 * cond * n:
                 ck.violation(dict(site="daun", clause="nonneg-feasible"), dict(n=n, degree=degree, dr=dr, source=src.tolist()),
                              f"daun reg='nonneg' (dr={dr}) differs from the (non-negative) unconstrained solution by {np.abs(a - b).max():.3g}")
+            # detector counts: the same equivalence for integer and single-precision data
+            for dt in (np.int32, np.uint16, np.float32):
+                Pd = (P * (1.0 if dt is np.float32 else 2000.0 / max(1e-12, np.abs(P).max()))).astype(dt)
+                try:
+                    a2 = np.asarray(quiet(daun.daun_transform, Pd, degree=degree, reg="nonneg", dr=dr), dtype=float)
+                    b2 = np.asarray(quiet(daun.daun_transform, Pd.astype(np.float64), degree=degree, dr=dr), dtype=float)
+                except Exception as e:
+                    ck.violation(dict(site="daun", clause="exception"), dict(n=n, degree=degree, dtype=str(np.dtype(dt))), f"{type(e).__name__}: {e}")
+                    continue
+                if b2.min() > 0 and np.abs(a2 - b2).max() > 1e-9 * cond * n * max(1.0, np.abs(b2).max()):
+                    ck.violation(dict(site="daun", clause="nonneg-feasible-dtype"), dict(n=n, degree=degree, dr=dr, dtype=str(np.dtype(dt))),
+                                 f"daun reg='nonneg' on {np.dtype(dt)} data differs from the positive unconstrained solution of the same data by "
+                                 f"{np.abs(a2 - b2).max():.3g}")
     for n in ([15, 25] if not deep else [11, 15, 25, 41]):
         yy, xx = np.mgrid[:n, :n] - n // 2
         r = np.hypot(yy, xx)
@@ -108,19 +121,20 @@ def oracle(ck, tier, deep):
                                  f"rbasex reg='pos' differs from the feasible unconstrained solution by {d:.3g}")
     # 4. alternatives agree within envelopes on smooth data
     for n in ([51, 101] if not deep else [51, 101, 201]):
-        r = np.arange(n)
-        f = np.exp(-r ** 2 / (n / 4.) ** 2)
-        P = (n / 4.) * np.sqrt(np.pi) * f
+        dra = float(rng.choice([1.0, 0.5, 2.0]))                       # the alternatives agree for every pixel size
+        r = np.arange(n) * dra
+        f = np.exp(-r ** 2 / (n * dra / 4.) ** 2)
+        P = (n * dra / 4.) * np.sqrt(np.pi) * f
         sl = slice(max(3, n // 10), n - max(3, n // 10))
-        res = {f"daun{d}": quiet(daun.daun_transform, P, degree=d) for d in (0, 1, 2, 3)}
-        res["hl0"] = quiet(abel.hansenlaw.hansenlaw_transform, P, hold_order=0)
-        res["hl1"] = quiet(abel.hansenlaw.hansenlaw_transform, P, hold_order=1)
+        res = {f"daun{d}": quiet(daun.daun_transform, P, degree=d, dr=dra) for d in (0, 1, 2, 3)}
+        res["hl0"] = quiet(abel.hansenlaw.hansenlaw_transform, P, hold_order=0, dr=dra)
+        res["hl1"] = quiet(abel.hansenlaw.hansenlaw_transform, P, hold_order=1, dr=dra)
         env = {"daun0": 0.02, "daun1": 0.01, "daun2": 0.01, "daun3": 0.01, "hl0": 0.06, "hl1": 0.03}
         for a, b in (("daun0", "daun1"), ("daun1", "daun2"), ("daun2", "daun3"), ("hl0", "hl1")):
             ck.count(("S.alternatives", n, a, b), suite="S.equivalence")
             d = np.abs(res[a] - res[b])[sl].max()
             if d > env[a] + env[b]:
-                ck.violation(dict(site=a[:4], clause="alternatives"), dict(n=n, a=a, b=b),
+                ck.violation(dict(site=a[:4], clause="alternatives"), dict(n=n, a=a, b=b, dr=dra),
                              f"{a} and {b} differ by {d:.3g} on a Gaussian (envelopes {env[a]}+{env[b]})")
     # 5. wrappers return what they wrap — every parameter given a distinct non-default value
     with warnings.catch_warnings():
